@@ -11,3 +11,4 @@ import DSymVerif.Props.C17
 #print axioms DSymVerif.C17.cubicKey_value
 #print axioms DSymVerif.C17.prefix_verdict_is_cascade
 #print axioms DSymVerif.C17.yes_carries_certificate
+#print axioms DSymVerif.C17.yes_cover_is_a_branchfree_oriented_covering
